@@ -218,7 +218,11 @@ def r176(ctx, rule='R17.6'):
     api = ctx.repo['api']
     f = api.func('ParquetFile._dtypes')
     tests = [x for x in walk_no_nested(f) if isinstance(x, ast.If) and 'st.get(3)' in norm(x.test)]
-    ok = len(tests) == 1 and 'st.get(3) is None' in norm(tests[0].test)
+    cfgd = CFG(f)
+    # the scan for files whose metadata is not trusted (the arm not under `if trusted`)
+    untrusted = [x for x in tests if not any(isinstance(e, ast.If) and norm(e.test) == 'trusted' and fld == 'body' for e, fld in cfgd.enclosing_tests(x))]
+    ok = len(untrusted) == 1 and 'st.get(3) is None' in norm(untrusted[0].test)
+    tests = untrusted or tests
     ctx.ob(rule, 'api._dtypes:missing-null-count-counts-as-possible-nulls', ok,
            '`if %s:` - statistics without null_count say nothing about nulls' % (norm(tests[0].test) if tests else '?'), api.loc(tests[0]) if tests else api.loc(f))
     uses = [st for st in walk_no_nested(f) if isinstance(st, ast.Assign) and norm(st.targets[0]) == 'dt' and 'numpy_type' in norm(st.value)]
@@ -236,5 +240,15 @@ def r177(ctx, rule='R17.7'):
     api = ctx.repo['api']
     f = api.func('ParquetFile._dtypes')
     pos = [x for x in walk_no_nested(f) if isinstance(x, ast.Subscript) and norm(x.value) == 'rg[1]' and isinstance(x.slice, ast.Name)]
+    # an integer type named by the pandas metadata is believed only as long as no chunk counts nulls: the shortcut
+    # must not leave the column before the chunks were looked at
+    short = [x for x in walk_no_nested(f) if isinstance(x, ast.If) and "'int' in tt" in norm(x.test)]
+    early = [x for x in short if any(isinstance(y, ast.Continue) for y in x.body)]
+    ctx.ob(rule, 'api._dtypes:metadata-integer-type-believed-only-while-no-chunk-counts-nulls', len(short) == 1 and not early,
+           'a `continue` right under `if %s:` keeps the plain integer dtype although an appended chunk may count nulls' % (
+               norm(short[0].test) if short else '?'), api.loc(short[0]) if short else api.loc(f))
+    s12 = [x for x in walk_no_nested(f) if isinstance(x, ast.If) and norm(x.test) == "dt == 'S12'"]
+    ctx.ob(rule, 'api._dtypes:int96-columns-reported-in-their-recorded-zone', len(s12) == 1 and any('tz.get(col' in norm(y) for y in ast.walk(s12[0]) if isinstance(y, ast.If)),
+           'INT96 data come back zone-aware when the pandas metadata records a zone', api.loc(s12[0]) if s12 else api.loc(f))
     ctx.ob(rule, 'api._dtypes:chunk-statistics-found-by-column-path', not pos and "c[3][3] == [col]" in norm(ast.Module(body=f.body, type_ignores=[])),
            'positional look-ups: %s' % [norm(x) for x in pos], api.loc(f))
